@@ -77,9 +77,9 @@ def audit(prop: str) -> dict:
     p = subprocess.run(["lake", "env", "lean", str(f)], cwd=LEAN, capture_output=True, text=True, timeout=1800)
     out = p.stdout + p.stderr
     res: dict[str, list[str] | None] = {t: None for t in thms}
-    for m in re.finditer(r"'([^']+)' depends on axioms: \[([^\]]*)\]", out):
+    for m in re.finditer(r"'(\S+)' depends on axioms: \[([^\]]*)\]", out):
         res[m.group(1)] = [a.strip() for a in m.group(2).replace("\n", " ").split(",") if a.strip()]
-    for m in re.finditer(r"'([^']+)' does not depend on any axioms", out):
+    for m in re.finditer(r"'(\S+)' does not depend on any axioms", out):
         res[m.group(1)] = []
     bad = {t: a for t, a in res.items() if a is None or not set(a) <= ALLOWED_AXIOMS}
     return {"theorems": thms, "axioms": res, "bad": bad, "rc": p.returncode, "out": out if (bad or p.returncode) else ""}
